@@ -20,7 +20,7 @@ def base_workloads(tier, rng, n_random=0, profile="small"):
           "long_locus": 1},
          {"read_group": "tag", "count_exons": True}),
         ({"seed": 12, "n_chr": 4, "groups": 12, "group_missing": 5, "paralogs": 2, "novel": 2, "n_bams": 2,
-          "dup_records": 1, "equal_len": 1, "pre_ids": 1},
+          "dup_records": 1, "equal_len": 1, "pre_ids": 2, "novel_gene_overlap": 1, "novel_cov": 6},
          {"read_group": "read_id", "check_canonical": True, "count_exons": True}),
         ({"seed": 13, "n_chr": 3, "n_exp": 2, "exp_mode": "split", "paralogs": 1, "novel": 1},
          {"sqanti_output": True}),
